@@ -23,6 +23,11 @@ type Hist struct {
 	overflow bool
 	curTask  int
 	curStep  int
+	// hazard is set once a task has been seen blocked on a lock: from then on
+	// a released waiter may run beside the releasing task until its next
+	// yield, so the recording task is identified by its goroutine (who).
+	hazard bool
+	who    func() int
 }
 
 func NewHist(capacity int) *Hist { return &Hist{evs: make([]Ev, capacity), curTask: -1} }
@@ -33,6 +38,8 @@ func (h *Hist) Reset() {
 	h.overflow = false
 	h.curTask = -1
 	h.curStep = 0
+	h.hazard = false
+	h.who = nil
 }
 
 // Rec appends an event, stamping the current task and step.
@@ -45,7 +52,11 @@ func (h *Hist) Rec(k uint16, a, b, c, d int64, s string) {
 	}
 	e := &h.evs[h.n]
 	e.K = k
-	e.Task = int16(h.curTask)
+	task := h.curTask
+	if h.hazard && h.who != nil {
+		task = h.who()
+	}
+	e.Task = int16(task)
 	e.Step = int32(h.curStep)
 	e.A, e.B, e.C, e.D = a, b, c, d
 	e.S = s
@@ -60,6 +71,15 @@ func (h *Hist) SetCur(task, step int) {
 
 //go:norace
 func (h *Hist) Cur() int { return h.curTask }
+
+//go:norace
+func (h *Hist) SetHazard(who func() int) {
+	h.hazard = true
+	h.who = who
+}
+
+//go:norace
+func (h *Hist) Hazard() bool { return h.hazard }
 
 //go:norace
 func (h *Hist) Len() int { return h.n }
